@@ -258,10 +258,26 @@ def gen_histories(rng: random.Random, notn: str, ref: pl.Ref, n: int):
 # --------------------------------------------------------------------------
 # running both sides
 
+FROZEN_IS_NOAUTO = {}
+
+
+def frozen_behaviour(notn: str, ref) -> bool:
+    """Schematic probe of one finite behaviour: does a frozen store with auto_preds behave like auto_preds=False
+    (UndefinedPredicateError, e.g. after fixes/parser-frozen-store.diff) instead of raising AttributeError?"""
+    if notn not in FROZEN_IS_NOAUTO:
+        i = ref.sym('Predicate', 1)      # the symbol alone: the whole input is consumed before the decision
+        r = probe_json('probe_parse.py', ['parse'], stdin=json.dumps(
+            [dict(notation=notn, preds=[[0, 0, 1]], auto=True, frozen=True, mode='fresh', inputs=[i])]))[0]['results'][0]
+        FROZEN_IS_NOAUTO[notn] = (r == 'E UndefinedPredicateError')
+    return FROZEN_IS_NOAUTO[notn]
+
+
 def model_exprs(jobs: list[dict]) -> list[str]:
     ex = []
     for job in jobs:
         nt = NOTATIONS[job['notation']]
+        if job.get('frozen') and FROZEN_IS_NOAUTO.get(job['notation']):
+            job = dict(job, frozen=False, auto=False)
         if (job.get('opts') or {}).get('drop_parens') is False:
             nt = dict(nt, parse=nt['parse'] + '_nd', history=nt['history'] + '_nd')
         cfg = pl.coq_cfg(nt['table'], job.get('auto', True), job.get('frozen', False))
@@ -323,6 +339,10 @@ def classify(chk: Check, job: dict, idx, inp, real_res, model_res, real_store, m
         if mk == rk:
             return          # the model predicts exactly this escape (e.g. the frozen store)
     if real_res != model_res:
+        if rk == 'ParseError' and mk == 'OK' and (max_digit_run(inp) > DIGIT_LIMIT or (job.get('rep') and job['rep'][2] > DIGIT_LIMIT and not job.get('deep'))):
+            # int() limit reported as ParseError (e.g. after fixes/parser-subscript-digit-limit.diff): property holds
+            chk.count('boundary', 'cpython-int-digit-limit(parse-error, property holds)')
+            return
         if rk == 'ParseError' and mk == 'OK' and job.get('deep'):
             # RecursionError masked by __exit__: still a ParseError, C13's letter holds (see C12)
             chk.count('boundary', 'recursion-depth-masked(parse-error, property holds)')
@@ -396,6 +416,7 @@ def _run(chk, args) -> int:
         hs = gen_histories(rng, notn, ref, 3000 if thorough else 300)
         compare_histories(chk, hs, f'Hist_{notn}_')
         # ---- frozen store (the model predicts the AttributeError; parse_frozen_refuted)
+        chk.notes[f'frozen_store_behaves_as_no_auto:{notn}'] = frozen_behaviour(notn, ref)
         fj = [dict(notation=notn, preds=[[0, 0, 1]], auto=True, frozen=True, mode='fresh',
                    inputs=[render(notn, ref, ['P', [1, 0, 1], [['c', 0, 0]]]),
                            render(notn, ref, ['P', [0, 0, 1], [['c', 0, 0]]]),
@@ -403,6 +424,7 @@ def _run(chk, args) -> int:
         compare_fresh(chk, fj, f'Frozen_{notn}_', 'frozen-store', shard=1)
         # ---- CPython boundary cases
         boundary(chk, notn, ref, thorough)
+    shrink_findings(chk)
     chk.checker_cmd = ('coqc gen/C13/{Tables,Status,Obl,Exh_*,Rnd_*,Hist_*}.v against '
                        'coq/theories/Lang/{PSyntax,ParsePolish,ParsePolishProofs,PShow}.v, Props/C13.v')
     chk.trusted.append('tools/probe_parse.py (runs the real parsers; structural serialisation of Sentence objects)')
@@ -410,6 +432,66 @@ def _run(chk, args) -> int:
                        '(tied by the correspondence run)')
     chk.notes['explanation'] = EXPLANATION
     return chk.finish()
+
+
+def key_of(notn: str, real_res: str, model_res: str):
+    rk, mk = kind_of(real_res), kind_of(model_res)
+    if rk != 'OK' and rk not in PARSE_ERRORS and rk != mk:
+        return f'{notn}:raises:{rk}'
+    if real_res != model_res:
+        return f'{notn}:model-mismatch:{mk}->{rk}'
+    return None
+
+
+def shrink_findings(chk: Check, max_findings=3, max_rounds=30):
+    """Shrink the witness string of single-input findings by deleting characters while the same
+    stable key is still produced (real parser + model re-evaluated on every candidate)."""
+    done = 0
+    for f in chk.findings:
+        rep = f['replay']
+        job = rep.get('job') or {}
+        if rep.get('kind') != 'parse' or job.get('mode') != 'fresh' or job.get('rep') or len(job.get('inputs', [])) != 1:
+            continue
+        if not (':model-mismatch:' in f['key'] or ':raises:' in f['key']):
+            continue
+        if (chk.known.get((chk.pid, f['key'])) or {}).get('status') == 'open':
+            continue
+        inp = job['inputs'][0]
+        if not (8 < len(inp) <= 300) or done >= max_findings:
+            continue
+        done += 1
+        base = {k: v for k, v in job.items() if k not in ('cats', 'deep')}
+        cur = inp
+        for _ in range(max_rounds):
+            cands = []
+            n = len(cur)
+            for width in sorted({max(1, n // 2), max(1, n // 4), 2, 1}, reverse=True):
+                for i in range(0, n - width + 1, max(1, width // 2) if width > 1 else 1):
+                    c = cur[:i] + cur[i + width:]
+                    if c not in cands and c != cur:
+                        cands.append(c)
+            cands = cands[:160]
+            if not cands:
+                break
+            j = dict(base, inputs=cands)
+            real, model = run_both([j], 'Shrink_', shard=1)
+            hit = None
+            for c, r, m in zip(cands, real[0]['results'], model[0]):
+                if key_of(job['notation'], r, m.partition(' # ')[0]) == f['key']:
+                    hit = (c, r, m.partition(' # ')[0])
+                    break
+            if hit is None:
+                break
+            cur = hit[0]
+            rep['job'] = dict(base, inputs=[cur])
+            rep['observed'] = hit[1]
+            if 'expect_model' in rep:
+                rep['expect_model'] = hit[2]
+            rep['model'] = hit[2]
+            f['what'] = (f"{job['notation']} parser on {cur!r} (shrunk from {len(inp)} chars): implementation "
+                         f"{hit[1][:120]!r}, model {hit[2][:120]!r}")
+            if len(cur) <= 3:
+                break
 
 
 def compare_fresh(chk: Check, jobs: list[dict], name: str, category: str, shard=1):
